@@ -18,7 +18,7 @@ def sh(cmd, cwd=None, env=None, timeout=3600):
 
 
 def verify(pid, m):
-    wt, out = "/tmp/wt/%s" % pid, {"n": "/tmp/wt/out2_%s", "p": "/tmp/wt/out3_%s", "q": "/tmp/wt/out4_%s", "r": "/tmp/wt/out5_%s", "u": "/tmp/wt/out6_%s"}.get(m[0], "/tmp/wt/out_%s") % pid
+    wt, out = "/tmp/wt/%s" % pid, {"n": "/tmp/wt/out2_%s", "p": "/tmp/wt/out3_%s", "q": "/tmp/wt/out4_%s", "r": "/tmp/wt/out5_%s", "u": "/tmp/wt/out6_%s", "v": "/tmp/wt/out7_%s", "b": "/tmp/wt/out7_%s"}.get(m[0], "/tmp/wt/out_%s") % pid
     env = {"PYTHONPATH": wt + "/src"}
     rc, o = sh("git status --porcelain", cwd=wt)
     assert o.strip() == "", "worktree dirty: " + o
@@ -35,19 +35,23 @@ def verify(pid, m):
         res["tests_pass"] = " passed" in res["tests_tail"] and "failed" not in res["tests_tail"] and "error" not in res["tests_tail"]
     finally:
         sh("git checkout -- . && git clean -fdq", cwd=wt)
-    res["ok"] = res["demo_without"] == 0 and res["demo_with"] != 0 and res["tests_pass"]
+    if m.startswith("b"):          # a property-PRESERVING change: its demo passes both ways
+        res["ok"] = res["demo_without"] == 0 and res["demo_with"] == 0 and res["tests_pass"]
+    else:
+        res["ok"] = res["demo_without"] == 0 and res["demo_with"] != 0 and res["tests_pass"]
     print(json.dumps(res))
     return res
 
 
 def install(pid, m, res=None):
-    out = {"n": "/tmp/wt/out2_%s", "p": "/tmp/wt/out3_%s", "q": "/tmp/wt/out4_%s", "r": "/tmp/wt/out5_%s", "u": "/tmp/wt/out6_%s"}.get(m[0], "/tmp/wt/out_%s") % pid
-    d = os.path.join(V, "seeded", "%s-%s" % (pid, m))
+    out = {"n": "/tmp/wt/out2_%s", "p": "/tmp/wt/out3_%s", "q": "/tmp/wt/out4_%s", "r": "/tmp/wt/out5_%s", "u": "/tmp/wt/out6_%s", "v": "/tmp/wt/out7_%s", "b": "/tmp/wt/out7_%s"}.get(m[0], "/tmp/wt/out_%s") % pid
+    d = os.path.join(V, "benign" if m.startswith("b") else "seeded", "%s-%s" % (pid, m))
     os.makedirs(d, exist_ok=True)
     shutil.copy("%s/%s.diff" % (out, m), d + "/patch.diff")
     shutil.copy("%s/%s_demo.py" % (out, m), d + "/demo.py")
     meta = json.load(open("%s/%s.json" % (out, m)))
     meta = {"property": pid, "summary": meta.get("summary"), "needs": meta.get("needs"), "clause": meta.get("clause"),
+            "what_changes": meta.get("what_changes"), "why_property_still_holds": meta.get("why_property_still_holds"),
             "origin": "independent sub-agent given only the property text and a scratch worktree",
             "confirmed": res, "confirmed_by": "tools/seed.py verify (scratch worktree: demo rc without/with patch, pinned pytest suite with patch)"}
     json.dump(meta, open(d + "/meta.json", "w"), indent=1)
@@ -56,7 +60,7 @@ def install(pid, m, res=None):
 
 def detect(sid, tier="quick", check=None):
     """one seeded change against its check, in a scratch clone of /repo (so /repo stays pristine for anything running meanwhile)"""
-    d = os.path.join(V, "seeded", sid)
+    d = os.path.join(V, "benign" if sid.split("-")[1].startswith("b") else "seeded", sid)
     pid = check or json.load(open(d + "/meta.json"))["property"]
     clone = "/tmp/verif-detect-%s-%d" % (sid, os.getpid())
     sh("rm -rf %s && git clone -q /repo %s" % (clone, clone))
